@@ -51,9 +51,12 @@ TRUSTED_BASE = [
 ASSUMPTIONS = [
     "no basins; configuration values are valid for their key (known LUT, "
     "temperature inside the model range); innate data never change",
-    "theorem scope: reads whose selected recipe has only innate/temporary "
-    "required features (flat) and is complete; availability statements "
-    "under the guard 'every cached feature is still available'",
+    "theorem scope (C06_read_coherent_*): reads for which the cache did not "
+    "change the selected recipe, whose selected recipe has only innate/"
+    "temporary required features (flat), reads only hashed ingredients, is a "
+    "generic method or the 3-channel crosstalk correction and has no hashed "
+    "req_func result; chains of computed features, hashed req_func results "
+    "and the emodulus recipes are covered by the correspondence only",
 ]
 
 F_ID = {}      # feature name -> id
